@@ -30,6 +30,9 @@ reduces `miss` to ONE statement about the END of the alone run (reports only gro
   loaded prefix; the responder holds the root or not): `WF` link tree, store ⊆ responder store; proved by the
   alignment invariant `AL` of `Lemmas/ConcurrentCleanAlign.lean` (C02 completeness, one item per message,
   every interleaving);
+* `alone_run_clean_prefix`, `partial_shared_store_prefix` — FULL strength in the region "the requestor holds
+  the first `N ≥ 1` links of the traversal and not the next one" (`WF`, `PathsDFS`, root path empty): the
+  verifier's replay, one recorded link per delivery, then `AL`;
 * `shared_store_follows_wf_partial`, `partial_shared_store_wf_partial` — `shared_store_follows` /
   `partial_shared_store_issue_time` with the `CleanAt` hypothesis replaced by that single clause (and
   `hdep`).
@@ -50,17 +53,17 @@ reduces `miss` to ONE statement about the END of the alone run (reports only gro
     theorem alone_result_store_independent : … st ⊆ rem, st' ⊆ rem ⇒ blocksOf / missingOf / deliveredOf of the
         complete alone run over st = those over st' (= the reference traversal `refTrav` over rem)
 
-By `alone_run_clean_wf_partial` the first one is equivalent to its `miss` clause at the end of the run,
-and by `alone_run_clean_unheld_root` it is PROVED whenever the requestor does not hold the root at issue
-time.  What is left is the request with a locally loaded prefix of `N ≥ 1` links (do-not-send-first-blocks
-= `N`; `hroot0`, `hne`, `hdfs` are needed there only): the first `N` deliveries are consumed by the
-verifier's replay of the traversal record (one `Loader.waitRemote_step` per wake-up: `tipOf_spec`,
-`nextLink_true'` of `Lemmas/LoaderReplayTrie.lean` under `PathsDFS`), the tracker's skip window (`TI` with
-`N > 0`: `respStep_item` already covers it) makes the responder send no block for them, and from then on
-the invariant `AL` applies unchanged (`PK.ver`: the verifier is done).  Missing pieces: the start state
-after the local phase (`ExchangeComplete.request_prefix` + `LoaderReplay.afterResponseP_eq`), the replay
-step as a case of `AL_deliver` (cursor = remaining prefix ++ executor's cursor, window = remaining prefix).
-0 violations in 20 000 generated well-formed cases (`#eval` harness of round 4).
+Status of the first one: PROVED in the three regions that partition the issue-time stores `st ⊆ rem` for which
+the request goes remote — `alone_run_clean_root_missing` (responder lacks the root),
+`alone_run_clean_unheld_root` (requestor lacks the root: no local prefix), `alone_run_clean_prefix`
+(requestor holds the first `N ≥ 1` links and not the next one: the verifier's replay is spread over the
+first `N` deliveries, `message_replay`) — each with its `partial_shared_store_…` corollary.  By
+`alone_run_clean_wf_partial` the `reg` / `nofail` clauses need no case distinction.  NOT proved: the
+degenerate region in which the local store covers the WHOLE traversal (nothing is sent; C24 `silent`
+is the single-request statement), the three regions glued into the one statement above (needs `PathsDFS`
+closed under prefixes), and `alone_result_store_independent` (the delivered nodes of the clean alone run
+= the reference traversal over rem, whatever `st ⊆ rem`), hence `partial_shared_store_wf` with the SOLO
+result on the right-hand side.
 -/
 namespace GS.C20
 open GS.Loader GS.Requestor GS.LinkTrack GS.Concurrent
@@ -318,7 +321,7 @@ theorem alone_run_clean_unheld_root (st : List (Cid × Blk)) (rem : List Cid) (l
       exact hd0m
     obtain ⟨a0, e0⟩ := AL_start st rem lts keys i root rest hl hun hwf hd0m
     have hG := (GOK_step _ (.start i) (GOK_init st rem lts keys hst)).1
-    obtain ⟨_, e1⟩ := AL_run i τ _ hτ hG a0 e0
+    obtain ⟨_, e1⟩ := AL_run TRec.empty i τ _ hτ hG a0 e0
     obtain ⟨h1, h2, _⟩ := alone_run_regular st rem lts keys i hd0 τ hτ
     exact ⟨h1, fun r w ws _ _ hc => h2 (w :: ws) w hc List.mem_cons_self, e1⟩
 
@@ -346,6 +349,70 @@ theorem partial_shared_store_unheld_root (st : List (Cid × Blk)) (rem : List Ci
   partial_shared_store_issue_time st rem lts keys i k pre post τ hst hk hothers hpre hpost hτ
     (fun τ' hτ' => alone_run_clean_unheld_root (issueStore st rem lts keys pre) rem lts keys i root rest
       (issueStore_sub st rem lts keys pre hst) hl hwf hdep hun τ'
+      (fun a ha => onlyOf_acts i post hpost a (hτ'.subset ha))) c1 c2
+
+/-- **C20.alone_run_clean_prefix** (`alone_run_clean` at FULL strength in the region "the requestor holds
+    the first `N ≥ 1` links `root :: pre'` of the traversal and not the next one, `n`" — the case that
+    arises over a SHARED store, where other requests have stored the first blocks of the DAG).  Same
+    hypotheses as `C02.complete_prefix_held`: link tree well formed (`WF`), the root's path empty, the
+    prefix's paths in depth-first order (`PathsDFS`), only the first link has depth 0, local store ⊆
+    responder store.  The request is sent with do-not-send-first-blocks = `N`; the responder's first `N`
+    entries (present, no block: skip window of the link tracker) are consumed by the verifier's replay of
+    the traversal record, ONE PER DELIVERY (`message_replay`: `Loader.waitRemote_step`, `tipOf_spec`,
+    `nextLink_true'`), then the alignment invariant `AL` takes over.  Under ANY schedule of the request's
+    actions the alone run is `CleanAt` at every state: it never reports a block missing that the
+    responder holds (C02 completeness, one response item per message). -/
+theorem alone_run_clean_prefix (st : List (Cid × Blk)) (rem : List Cid) (lts : List LT) (keys : List (Option Key))
+    (i : Nat) (root : LNode) (pre' : LT) (n : LNode) (post : LT)
+    (hst : ∀ c, (storeGet st c).isSome = true → c ∈ rem)
+    (hl : lts[i]? = some (root :: pre' ++ n :: post)) (hwf : Loader.WF (root :: pre' ++ n :: post))
+    (hroot0 : root.path = []) (hdep : ∀ m ∈ pre' ++ n :: post, m.depth ≠ 0)
+    (hdfs : PathsDFS ((root :: pre').map (·.path)))
+    (hheld : ∀ m ∈ root :: pre', holds st m.cid = true) (hmiss : holds st n.cid = false)
+    (τ : List Act) (hτ : ∀ a ∈ τ, a = .resp i ∨ a = .deliver i) :
+    CleanAt i (Concurrent.run (initSys st rem lts keys) (.start i :: τ)) := by
+  have hrootrem : root.cid ∈ rem := hst root.cid (hheld root List.mem_cons_self)
+  have hd0m : ∀ m ∈ root :: pre' ++ n :: post, m.depth = 0 → m.cid ∈ rem := by
+    intro m hm hd
+    rcases List.mem_cons.mp hm with rfl | hm
+    · exact hrootrem
+    · exact absurd hd (hdep m hm)
+  have hd0 : ∀ lt, lts[i]? = some lt → ∀ m ∈ lt, m.depth = 0 → m.cid ∈ rem := by
+    intro lt hl'
+    rw [hl] at hl'
+    cases hl'
+    exact hd0m
+  obtain ⟨a0, e0⟩ := AL_start_prefix st rem lts keys i root pre' n post hl hst hheld hmiss hroot0 hdfs hwf hd0m
+  have hG := (GOK_step _ (.start i) (GOK_init st rem lts keys hst)).1
+  obtain ⟨_, e1⟩ := AL_run _ i τ _ hτ hG a0 e0
+  obtain ⟨h1, h2, _⟩ := alone_run_regular st rem lts keys i hd0 τ hτ
+  exact ⟨h1, fun r w ws _ _ hc => h2 (w :: ws) w hc List.mem_cons_self, e1⟩
+
+/-- **C20.partial_shared_store_prefix** (`partial_shared_store` under `WF` / `PathsDFS`, no cleanliness or
+    completeness hypothesis, for a request that finds the first `N ≥ 1` blocks of its traversal in the
+    shared store when it is issued and not the next one).  Distinct dedup keys over the shared store ⊆
+    responder store; every schedule of the whole system that issues request `i` once and is complete
+    for it gives `i` the result of every complete schedule of `i` alone over its issue-time store. -/
+theorem partial_shared_store_prefix (st : List (Cid × Blk)) (rem : List Cid) (lts : List LT) (keys : List (Option Key))
+    (i : Nat) (k : Key) (pre post τ : List Act) (root : LNode) (pre' : LT) (n : LNode) (post' : LT)
+    (hst : ∀ c, (storeGet st c).isSome = true → c ∈ rem)
+    (hk : keys.getD i none = some k) (hothers : ∀ j, j ≠ i → keys.getD j none ≠ some k)
+    (hpre : ∀ a ∈ pre, Act.idx a ≠ i) (hpost : ∀ a ∈ post, a ≠ .start i)
+    (hτ : ∀ a ∈ τ, a = .resp i ∨ a = .deliver i)
+    (hl : lts[i]? = some (root :: pre' ++ n :: post')) (hwf : Loader.WF (root :: pre' ++ n :: post'))
+    (hroot0 : root.path = []) (hdep : ∀ m ∈ pre' ++ n :: post', m.depth ≠ 0)
+    (hdfs : PathsDFS ((root :: pre').map (·.path)))
+    (hheld : ∀ m ∈ root :: pre', holds (issueStore st rem lts keys pre) m.cid = true)
+    (hmiss : holds (issueStore st rem lts keys pre) n.cid = false)
+    (c1 : Complete i (Concurrent.run (initSys st rem lts keys) (pre ++ .start i :: post)))
+    (c2 : Complete i (Concurrent.run (initSys (issueStore st rem lts keys pre) rem lts keys) (.start i :: τ))) :
+    resultOf (Concurrent.run (initSys st rem lts keys) (pre ++ .start i :: post)) i
+      = resultOf (Concurrent.run (initSys (issueStore st rem lts keys pre) rem lts keys) (.start i :: τ)) i ∧
+    finished (Concurrent.run (initSys st rem lts keys) (pre ++ .start i :: post)) i
+      = finished (Concurrent.run (initSys (issueStore st rem lts keys pre) rem lts keys) (.start i :: τ)) i :=
+  partial_shared_store_issue_time st rem lts keys i k pre post τ hst hk hothers hpre hpost hτ
+    (fun τ' hτ' => alone_run_clean_prefix (issueStore st rem lts keys pre) rem lts keys i root pre' n post'
+      (issueStore_sub st rem lts keys pre hst) hl hwf hroot0 hdep hdfs hheld hmiss τ'
       (fun a ha => onlyOf_acts i post hpost a (hτ'.subset ha))) c1 c2
 
 /-! ## non-vacuity (test of concrete values)
@@ -383,6 +450,21 @@ example :
       ([.start 0, .resp 0] ++ .start 1 :: [.deliver 0, .resp 1, .resp 0, .deliver 0, .deliver 1, .resp 1, .deliver 1,
         .resp 1, .deliver 1, .resp 0, .deliver 0])) 1 = ([(7, []), (3, [0])], [], 2) := by
   refine ⟨?_, by decide, by decide, by decide⟩
+  simp only [exLT, Loader.WF, subOf, skipSub]
+  decide
+
+/-- `alone_run_clean_prefix` / `partial_shared_store_prefix`: the system of the example at the end of
+    `C20Shared.lean` — request 1 is issued when block 7 (its root) is in the shared store and block 3 is not:
+    `N = 1`, the first delivery is consumed by the verifier's replay; hypotheses and result. -/
+example :
+    Loader.WF exLT ∧ PathsDFS ([(⟨7, [], 0, 1, 0⟩ : LNode)].map (·.path)) ∧
+    issueStore [] [7, 3] [exLT, exLT] [some 1, some 2] shPre = [(7, 7)] ∧
+    holds [(7, 7)] 7 = true ∧ holds [(7, 7)] 3 = false ∧
+    sentSkip ((Concurrent.run (initSys [(7, 7)] [7, 3] [exLT, exLT] [some 1, some 2]) (.start 1 :: onlyOf 1 shPost)).evs.getD 1 [])
+      = some 1 ∧
+    resultOf (Concurrent.run (initSys [] [7, 3] [exLT, exLT] [some 1, some 2]) (shPre ++ .start 1 :: shPost)) 1
+      = ([(7, []), (3, [0])], [], 2) := by
+  refine ⟨?_, by decide, by decide, by decide, by decide, by decide, by decide⟩
   simp only [exLT, Loader.WF, subOf, skipSub]
   decide
 
